@@ -118,6 +118,19 @@ def step (d : DState) (opLine : String) (impl : String) : DState × StepOut :=
                                       loc := fun i => if i = 1 then parsePair l1 else if i = 2 then parsePair l2 else (0, 0) }
         ({ d with proto := st }, { model := s!"ok | {viewStr st}" })
       | _ => (d, { model := "bad-op" })
+    | "lrestart" :: _ =>
+      -- every local allocator is re-elected: what its memory is afterwards is an input (C01–C03 territory),
+      -- but it must not be below what it was (nor, by the monitor on later grants, below an earlier global)
+      match words ((impl.splitOn " | ").getLast?.getD "") with
+      | [g, l1, l2] =>
+        let n1 := parsePair l1; let n2 := parsePair l2
+        let st : St := { d.proto with glob := parsePair g,
+                                      loc := fun i => if i = 1 then n1 else if i = 2 then n2 else d.proto.loc i }
+        let fails :=
+          (if decide (tsLt n1 (d.proto.loc 1)) then [s!"sig=C05.local-memory-moved-back-after-restart dc=1 from={(d.proto.loc 1).1}:{(d.proto.loc 1).2} to={n1.1}:{n1.2}"] else []) ++
+          (if decide (tsLt n2 (d.proto.loc 2)) then [s!"sig=C05.local-memory-moved-back-after-restart dc=2 from={(d.proto.loc 2).1}:{(d.proto.loc 2).2} to={n2.1}:{n2.2}"] else [])
+        ({ d with proto := st }, { model := s!"{(impl.splitOn " | ").headD ""} | {viewStr st}", fails := fails })
+      | _ => (d, { model := "bad-op" })
     | ["req", a, c] =>
       let a := natArg a; let c := natArg c
       let (st', ts?) : St × Option TS :=
